@@ -507,6 +507,23 @@ static void apply_fault(slot_t *s, const char *kind, long a, long b, int src) {
 			}
 			bn_free(p); bn_free(c);
 		}
+	} else if (!strcmp(kind, "addp")) {
+		/* the field-sized window with index a := window + p when that still fits the window: the same residue, written
+		 * with its other representative - every equation over the field holds for it, only the range check can tell */
+		if (len >= RLC_FP_BYTES) {
+			size_t lead = len % RLC_FP_BYTES ? 1 : 0;
+			size_t nwin = (len - lead) / RLC_FP_BYTES;
+			size_t off = lead + ((size_t)a % (nwin ? nwin : 1)) * RLC_FP_BYTES;
+			bn_t p, c;
+			bn_null(p); bn_null(c); bn_new(p); bn_new(c);
+			p->used = RLC_FP_DIGS;
+			dv_copy(p->dp, fp_prime_get(), RLC_FP_DIGS);
+			bn_trim(p);
+			bn_read_bin(c, s->p + off, RLC_FP_BYTES);
+			bn_add(c, c, p);
+			if (bn_size_bin(c) <= RLC_FP_BYTES) bn_write_bin(s->p + off, RLC_FP_BYTES, c);
+			bn_free(p); bn_free(c);
+		}
 	} else if (!strcmp(kind, "winff")) {
 		size_t unit = (!strcmp(s->type, "eb") || !strcmp(s->type, "fb")) ? RLC_FB_BYTES : RLC_FP_BYTES;
 		if (len >= unit) {
